@@ -59,6 +59,9 @@ def c10(res: CheckResult) -> None:
               list(F.fam_reent_async(res.tier, rng)), ic)
     call_unit(res, "violations found by async / sync public methods, then further (non re-entrant) operations: "
                    "nothing but own re-entry may go unchecked", list(F.fam_inv_async(res.tier, rng)), ic)
+    call_unit(res, "constructors / methods / conditions ending with an exception, then probes on the same object: "
+                   "no later call may be mistaken for a re-entrant one",
+              [p for p in F.fam_fault(res.tier, rng) if p["tag"].startswith(("fault-method", "fault2-method"))], ic)
 
 
 @check("C02")
